@@ -460,12 +460,53 @@ func (c *normCtx) tryExtract(value ast.Value, expected Input) (ast.Value, bool) 
 		return value, false
 	}
 	name := c.nextName()
-	c.synthArgs[name] = coerced
+	// The variable carries what a client would have sent for this literal
+	// (enum values by name, not by internal value): it is coerced against
+	// the declared type again when the plan is executed.
+	c.synthArgs[name] = variableValueFromLiteral(value)
 	c.newVarDefs = append(c.newVarDefs, ast.NewVariableDefinition(&ast.VariableDefinition{
 		Variable: ast.NewVariable(&ast.Variable{Name: ast.NewName(&ast.Name{Value: name})}),
 		Type:     typeASTFromGoType(expected),
 	}))
 	return ast.NewVariable(&ast.Variable{Name: ast.NewName(&ast.Name{Value: name})}), true
+}
+
+// variableValueFromLiteral converts a variable-free literal to the value a
+// client would supply for it through a variable.
+func variableValueFromLiteral(value ast.Value) interface{} {
+	switch v := value.(type) {
+	case *ast.IntValue:
+		if i, err := strconv.ParseInt(v.Value, 10, 64); err == nil {
+			return int(i)
+		}
+		return v.Value
+	case *ast.FloatValue:
+		if f, err := strconv.ParseFloat(v.Value, 64); err == nil {
+			return f
+		}
+		return v.Value
+	case *ast.StringValue:
+		return v.Value
+	case *ast.BooleanValue:
+		return v.Value
+	case *ast.EnumValue:
+		return v.Value
+	case *ast.ListValue:
+		items := make([]interface{}, 0, len(v.Values))
+		for _, item := range v.Values {
+			items = append(items, variableValueFromLiteral(item))
+		}
+		return items
+	case *ast.ObjectValue:
+		fields := make(map[string]interface{}, len(v.Fields))
+		for _, f := range v.Fields {
+			if f != nil && f.Name != nil {
+				fields[f.Name.Value] = variableValueFromLiteral(f.Value)
+			}
+		}
+		return fields
+	}
+	return nil
 }
 
 // typeASTFromGoType maps a runtime Type to its AST form so we can
